@@ -424,11 +424,12 @@ def r7_usable_after_a_refusal(repo=None):
     FE = c04.exists_flag(wf)
     ones = [n for n in wf.walk() if n.kind == "BinaryOperator" and n.opcode == "=" and n.children[0].path() == FE
             and n.children[1].intval() == 1]
+    forms = [(o, cbool.path_condition(o, wf)) for o in ones]
     if not ones:
-        raise AnalysisError("digital_rf_write_samples_to_file: assignment %s = 1 not found" % FE)
+        f1, at = c04.flag_is_one(wf, FE)        # the flag is assigned one boolean expression
+        forms = [(at, f1)]
     H = OBJ + "->hdf5_file"
-    for o in ones:
-        f = cbool.path_condition(o, wf)
+    for o, f in forms:
         names = sorted(cbool.atoms(f))
         hatoms = [a for a in names if a == H]
         free = [a for a in names if a not in hatoms]
